@@ -346,7 +346,7 @@ func main() {
 			if t == "thorough" {
 				return 3000
 			}
-			return 300
+			return 900
 		},
 		Finish: func(t string, agg *explore.Aggregate) ([]explore.Violation, string) {
 			if agg.Outcomes["rejected"] < 100 || agg.Outcomes["accepted+ok"] < 100 {
